@@ -282,6 +282,14 @@ def fam_c09(R, n):
         out.append(dict(family='c09-token', src=enum([], ['#[token(%s)] A,' % rust_str(w)]), meta=dict(token_leaf=0, token_len=len(w.encode('utf-8')))))
     for w in [b'\xff\xfe', b'a\x00b']:
         out.append(dict(family='c09-token', src=enum(['#[logos(utf8 = false)]'], ['#[token(%s)] A,' % rust_bytes(w)]), meta=dict(token_leaf=0, token_len=len(w))))
+    # a token's default priority is 2 * byte length of the literal as written, with ignore(case) too: letters whose case variants
+    # are longer or shorter in UTF-8 (Kelvin sign, long s, Ohm sign, Angstrom sign, capital sharp s, dotted capital I, ...)
+    for w in ['\u212a', '\u017f\u017f', '\u2126m', 'a\u212b', '\u1e9e', '\u0130x', 'k', 's', 'K\u212a', '\u2c6f', 'ǆ', 'ab']:
+        for ic in (False, True):
+            out.append(dict(family='c09-token-fold', src=enum([], ['#[token(%s%s)] A,' % (rust_str(w), ', ignore(case)' if ic else '')]),
+                            meta=dict(token_leaf=0, token_len=len(w.encode('utf-8')))))
+    for w in [b'k', b'\xc5\xbf', b'K\xe2\x84\xaa']:
+        out.append(dict(family='c09-token-fold', src=enum(['#[logos(utf8 = false)]'], ['#[token(%s, ignore(case))] A,' % rust_bytes(w)]), meta=dict(token_leaf=0, token_len=len(w))))
     # explicit priority replaces the default
     for p, pr in [('a+', 7), ('[a-z]{4}', 1), ('abc', 0)]:
         out.append(dict(family='c09-explicit', src=enum([], ['#[regex(%s, priority = %d)] A,' % (rust_str(p), pr)]), meta=dict(leaf=0, explicit=pr)))
@@ -666,7 +674,7 @@ def fam_c04():
     bad_str = ['(?-u)\\xFF', '(?-u:[\\x80-\\xBF])+', 'a(?-u:\\xC3)', '(?s-u:.)', '(?-u:[^a])']
     bad_bytes = [b'\\xC3', b'[\\x80-\\xFF]', b'a\\xE2\\x82', b'\\xF0\\x9F+']
     ok_bytes = [b'\\xC3\\xA9', b'(\\xE2\\x82\\xAC)+', b'[a-z]+']
-    other = '#[regex("[a-z]+")] W,'
+    other = '#[regex("[0-9][0-9]+")] W,'      # (two digits at least: no tie with the patterns below in byte mode)
     for p in bad_str:
         out.append(dict(family='c04-regex', src=enum([], ['#[regex(%s)] A,' % rust_str(p), other]), meta=dict(closed=False)))
         out.append(dict(family='c04-skip', src=enum(['#[logos(skip(%s))]' % rust_str(p)], [other]), meta=dict(closed=False)))
